@@ -95,6 +95,11 @@ def check : Handler
       let m := resStr checkStr (Milenage_check P opc k sqn rand autn 0)
       let s := if dom [(opc, 16), (k, 16), (rand, 16), (sqn, 6), (autn, 16)] then
           "ok " ++ checkStr (Spec.Ts35206.checkSpec E opc k sqn rand autn)
+        else if dom [(opc, 16), (k, 16), (rand, 16), (sqn, 6)] && autn.length < 16 then
+          -- an AUTN is 16 octets (TS 33.102 6.3.2: SQN xor AK, AMF, MAC-A); a shorter token does not carry the whole MAC-A,
+          -- so accepting it cannot rest on "MAC-A is exactly f1": it must not be accepted, whatever else happens (error code,
+          -- trap). Longer tokens (a valid AUTN followed by more octets) are outside the property: undef.
+          "reject"
         else "undef"
       (m, s)
     | _, _, _, _, _ => badOp
